@@ -299,7 +299,13 @@ func (e *Env) pkgMember(pkg *types.Package, name string) (TV, bool) {
 			return TV{BoolLit(constant.BoolVal(c.Val())), c.Type()}, true
 		}
 	case *types.Var:
-		// global variable: same naming as the executor's default content
+		// global variable: same object and default content as the executor uses
+		if sp := e.ex.prog.Package(pkg); sp != nil {
+			if g := sp.Var(name); g != nil {
+				pv := e.ex.val(nil, g, e.cur).(*PtrV)
+				return TV{e.ex.content(e.cur, pv.Obj), c.Type()}, true
+			}
+		}
 		s := sortOf(c.Type())
 		if s == SErr {
 			return TV{Var("errvar_"+name, SErr), c.Type()}, true
@@ -593,6 +599,12 @@ func (e *Env) evalCall(x *Expr) TV {
 			return TV{BE8(e.term(args[0])), nil}
 		case "econs":
 			return TV{ECons(e.term(args[0]), e.term(args[1])), nil}
+		case "elog": // elog(E0, e1, ..., en) = E0 followed by e1..en
+			l := e.term(args[0])
+			for _, a := range args[1:] {
+				l = ECons(e.term(a), l)
+			}
+			return TV{l, nil}
 		}
 		if sp, ok := e.ex.contracts.Specs[f.Val]; ok {
 			return e.applySpec(sp, args)
@@ -605,6 +617,18 @@ func (e *Env) evalCall(x *Expr) TV {
 					ts = append(ts, e.term(a))
 				}
 				_ = d
+				return TV{App(f.Val, ts...), nil}
+			}
+			if strings.HasPrefix(f.Val, "eff_") {
+				// effect symbols are identified by method and arguments: declare on first use
+				var ts []*Term
+				var ss []*Sort
+				for _, a := range args {
+					t := e.term(a)
+					ts = append(ts, t)
+					ss = append(ss, t.Sort)
+				}
+				DeclareUF(f.Val, ss, SEffect)
 				return TV{App(f.Val, ts...), nil}
 			}
 			efail("dependency symbol %s is not declared (the code under contract does not call it)", f.Val)
@@ -771,7 +795,30 @@ func (e *Env) callGo(fn *ssa.Function, recv *TV, args []*Expr) TV {
 			vals[i] = e.ex.zeroVal(p.Type())
 		}
 	}
-	v := e.ex.callPure(fn, vals, e.cur)
+	var v Val
+	if ct := e.ex.lookupContract(fn); ct != nil && ct.Pure && e.ex.contractAtCallSite(fn, ct) {
+		// modular: the specification sees the same uninterpreted result as a call site (the contract's ensures
+		// are assumed for it)
+		st2 := e.cur.Clone()
+		save := e.ex.specMode
+		e.ex.specMode++
+		rs := e.ex.applyContract(nil, fn, ct, vals, st2, nil)
+		e.ex.specMode = save
+		for _, d := range rs[0].st.defs {
+			if !d.hasBV {
+				e.cur.AssumeDef(d)
+			}
+		}
+		// ensures of the contract are facts about the uninterpreted result
+		for _, c := range rs[0].st.pc[len(e.cur.pc):] {
+			if !c.hasBV {
+				e.cur.AssumeDef(c)
+			}
+		}
+		v = rs[0].ret
+	} else {
+		v = e.ex.callPure(fn, vals, e.cur)
+	}
 	var rt types.Type
 	switch sig.Results().Len() {
 	case 0:
